@@ -133,7 +133,15 @@ class Interp:
         g = m.globals
         frame = Frame(None, g)
         frame.module = m
+        body = []
         for node in m.tree.body:
+            if isinstance(node, ast.With):      # e.g. `with warnings.catch_warnings(): from cryptography ... import ...`
+                body.extend(node.body)
+            elif isinstance(node, ast.Try):
+                body.extend(node.body)
+            else:
+                body.append(node)
+        for node in body:
             if isinstance(node, ast.FunctionDef):
                 g[node.name] = FuncVal(m, node)
             elif isinstance(node, ast.ClassDef):
@@ -785,6 +793,8 @@ class Interp:
                 return o.value
             if name == "name":
                 return o.name
+            if name in o.cls.members:      # CPython < 3.12 semantics differ, 3.12: members are reachable from members
+                return o.cls.members[name]
         if isinstance(o, SuperProxy):
             for k in self.mro(o.cls)[1:]:
                 if name in k.methods:
